@@ -65,6 +65,8 @@ def run(C, R):
         CG = C.cg(cfg)
         roles = C.roles(cfg)
         R.configs.append(cfg)
+        from common import wrapper_discipline
+        R.floor('C11.W wrapper-paths[%s]' % cfg, wrapper_discipline(C, R, cfg, list(CHANNEL_STATES), 'C11.W'), 2)
         # ---------------- R1 monotone
         nw = 0
         for st, flag in CHANNEL_STATES.items():
